@@ -183,7 +183,7 @@ impl<T> TCompactOutputProtocol<T> {
 
 macro_rules! write_field_header_len {
     ($self:expr_2021, $ax:expr_2021, $field_type:expr_2021, $id:expr_2021) => {
-        let field_delta = $id - $self.last_write_field_id;
+        let field_delta = $id.wrapping_sub($self.last_write_field_id);
         if field_delta > 0 && field_delta < 15 {
             $ax += $self.byte_len(0);
         } else {
@@ -415,7 +415,7 @@ impl TCompactOutputProtocol<&mut BytesMut> {
         field_type: TCompactType,
         id: i16,
     ) -> Result<(), ThriftException> {
-        let field_delta = id - self.last_write_field_id;
+        let field_delta = id.wrapping_sub(self.last_write_field_id);
         if field_delta > 0 && field_delta < 15 {
             self.write_byte(((field_delta as u8) << 4) | (field_type as u8))?;
         } else {
@@ -690,7 +690,7 @@ impl TCompactOutputProtocol<&mut LinkedBytes> {
         field_type: TCompactType,
         id: i16,
     ) -> Result<(), ThriftException> {
-        let field_delta = id - self.last_write_field_id;
+        let field_delta = id.wrapping_sub(self.last_write_field_id);
         if field_delta > 0 && field_delta < 15 {
             self.write_byte(((field_delta as u8) << 4) | (field_type as u8))?;
         } else {
@@ -1055,7 +1055,8 @@ where
             )),
             _ => {
                 if field_delta != 0 {
-                    self.last_read_field_id += field_delta as i16;
+                    self.last_read_field_id =
+                        self.last_read_field_id.wrapping_add(field_delta as i16);
                 } else {
                     self.last_read_field_id = self.read_i16().await?;
                 }
@@ -1307,7 +1308,7 @@ impl TCompactInputProtocol<&mut Bytes> {
 
 macro_rules! read_field_header_len {
     ($self:expr_2021, $ax:expr_2021, $field_type:expr_2021, $id:expr_2021) => {
-        let field_delta = $id - $self.last_read_field_id;
+        let field_delta = $id.wrapping_sub($self.last_read_field_id);
         if field_delta > 0 && field_delta < 15 {
             $ax += $self.byte_len(0);
         } else {
@@ -1608,7 +1609,8 @@ impl TInputProtocol for TCompactInputProtocol<&mut Bytes> {
             )),
             _ => {
                 if field_delta != 0 {
-                    self.last_read_field_id += field_delta as i16;
+                    self.last_read_field_id =
+                        self.last_read_field_id.wrapping_add(field_delta as i16);
                 } else {
                     self.last_read_field_id = self.read_i16()?;
                 }
